@@ -1,3 +1,4 @@
+import AquaVerif.Proofs.RunClosedEs
 import AquaVerif.Proofs.Run
 import AquaVerif.Proofs.WaterDay
 /-
@@ -214,5 +215,35 @@ theorem run_pond_bounds {F : Fn α} {T : TrigFn α} {cfg : RunCfg α} {s : RunSt
       (d.P.fm.bunds = true → d.st.pond ≤ d.P.fm.zBund → 0 ≤ d.r.flux.esPot →
         0 ≤ d.r.flux.trPot → LagAerIntegral d.P.W → d.r.state.pond ≤ d.P.fm.zBund) :=
   Aqua.run_pond_bounds hP wp fc hr hOK
+
+/-! ### run level, per-day premises discharged (`Proofs/RunClosed*.lean`) -/
+
+section closed
+variable {α : Type} [Field α] [LinearOrder α] [IsStrictOrderedRing α]
+
+/-- **Run level, closed.** `th_dry ≤ th ≤ th_s`, ponding ≥ 0, unchanged compartments in every
+reachable state and on every simulated day — `CfgOK` and the capillary-rise residual only. -/
+theorem run_inv_closed {F : Fn α} {T : TrigFn α} {cfg : RunCfg α} {s : RunState α}
+    (hC : CfgOK F T cfg) (hr : RunReach F T cfg s) (hR : ∀ d ∈ s.daysRev, ResidualW d) :
+    WaterInv cfg s ∧ ∀ d ∈ s.daysRev, DayPre F d.P.W d.st.cells d.st.water ∧
+      (∀ y ∈ d.r.state.cells, y.Inv) ∧ 0 ≤ d.r.state.pond :=
+  Aqua.run_inv_closed hC hr hR
+
+/-- ponded water: zero without (effective) bunds, never above the bunds — the premises
+`0 ≤ EsPot`, `0 ≤ TrPot`, `LagAerIntegral` of `run_pond_bounds` are discharged. -/
+theorem run_pond_bounds_closed {F : Fn α} {T : TrigFn α} {cfg : RunCfg α} {s : RunState α} {A : α}
+    (hC : CfgOK F T cfg) (hT : CfgTrOK F cfg A) (hJ : CfgRwOK F cfg) (hE : CfgEsOK cfg)
+    (hW : WeatherOK F cfg) (hr : RunReach F T cfg s) (hR : ∀ d ∈ s.daysRev, ResidualW d) :
+    ∀ d ∈ s.daysRev, 0 ≤ d.r.state.pond ∧
+      (d.P.fm.bunds = false ∨ d.P.fm.zBund ≤ 0.001 → d.r.state.pond = 0) ∧
+      (d.P.fm.bunds = true → d.st.pond ≤ d.P.fm.zBund → d.r.state.pond ≤ d.P.fm.zBund) :=
+  fun d hd => (run_flux_closed hC hT hJ hE hW hr hR d hd).2.2.2
+
+/-- without a water table: no hypothesis about computed values at all -/
+theorem run_inv_no_table {F : Fn α} {T : TrigFn α} {cfg : RunCfg α} {s : RunState α}
+    (hC : CfgOK F T cfg) (hwt : cfg.W0.waterTable ≠ 1) (hr : RunReach F T cfg s) :
+    WaterInv cfg s ∧ (∀ x ∈ s.day.cells, 0 ≤ x.aer) ∧ 0 ≤ s.day.rCor :=
+  run_inv_closed_no_table hC hwt hr
+end closed
 
 end Aqua.C03
